@@ -11,10 +11,12 @@ Open Scope Z_scope.
     completely and are the bases i*B+j .. i*B+j+k. *)
 Definition layout (file : list Z) (e : frec) (seq : list Z) : Prop :=
   r_len e = zlen seq /\ 1 <= r_bases e /\ r_bases e <= r_bytes e /\
-  forall i j k, 0 <= i -> 0 <= j -> 1 <= k -> j + k <= r_bases e ->
+  forall (ch : bool) i j k, 0 <= i -> 0 <= j -> 1 <= k -> j + k <= r_bases e ->
     i * r_bases e + j + k <= r_len e ->
-    read_at file (r_start e + (i * r_bytes e + j)) k
-    = (slice seq (i * r_bases e + j) (i * r_bases e + j + k), NIL).
+    exists err,
+      read_at file ch (r_start e + (i * r_bytes e + j)) k
+      = (slice seq (i * r_bases e + j) (i * r_bases e + j + k), err) /\
+      (err = NIL \/ err = EOF /\ ch = true /\ i * r_bases e + j + k = r_len e).
 
 (* ----------------------------------------------- generated arithmetic *)
 
@@ -64,19 +66,32 @@ Qed.
 
 (* ----------------------------------------------------------- the loop *)
 
-Lemma read_loop_ok file e seq : layout file e seq ->
+(** What the error of a Read with a buffer of [k] bytes and [rem] bases left
+    can be: the ideal reader's, or io.EOF together with the last bytes when
+    exactly [k] were left and the ReaderAt chose to report io.EOF with them. *)
+Definition err_ok (ch : nat -> bool) (k rem err : Z) : Prop :=
+  err = (if k =? 0 then NIL else if rem <? k then EOF else NIL) \/
+  (err = EOF /\ 0 < k /\ rem = k /\ exists n, ch n = true).
+
+Lemma read_loop_ok file ch e seq : layout file e seq ->
   forall send endoff, 0 <= send <= r_len e -> position e send = Ok endoff ->
-  forall fuel cur blen acc, 0 <= cur <= send -> 1 <= blen -> (Z.to_nat (send - cur) <= fuel)%nat ->
-  read_loop file e endoff send fuel cur blen acc =
-  Ok (acc ++ slice seq cur (cur + Z.min blen (send - cur)), cur + Z.min blen (send - cur),
-      if send - cur <? blen then EOF else NIL).
+  forall fuel c cur blen acc, 0 <= cur <= send -> 1 <= blen -> (Z.to_nat (send - cur) <= fuel)%nat ->
+  exists err c',
+  read_loop file ch e endoff send fuel c cur blen acc =
+  Ok (acc ++ slice seq cur (cur + Z.min blen (send - cur)), cur + Z.min blen (send - cur), err, c')
+  /\ err_ok ch blen (send - cur) err.
 Proof.
   intros (HL & HB & HY & Hread) send endoff Hsend Hend.
   rewrite position_ok in Hend by lia. injection Hend as Hend. subst endoff.
-  induction fuel as [|fuel IH]; intros cur blen acc Hcur Hblen Hfuel.
-  - assert (cur = send) by lia. subst cur. cbn [read_loop]. rewrite Z.ltb_irrefl.
-    rewrite Z.sub_diag. rewrite Z.min_r by lia. rewrite Z.add_0_r, slice_nil_eq, app_nil_r.
-    destruct (Z.ltb_spec 0 blen); [reflexivity|lia].
+  assert (Hdone : forall c blen acc, 1 <= blen ->
+            exists err c', (Ok (acc, send, EOF, c) : outcome (list Z * Z * Z * nat)) =
+              Ok (acc ++ slice seq send (send + Z.min blen (send - send)), send + Z.min blen (send - send), err, c')
+              /\ err_ok ch blen (send - send) err).
+  { intros c blen acc Hb. exists EOF, c. rewrite Z.sub_diag. rewrite Z.min_r by lia.
+    rewrite Z.add_0_r, slice_nil_eq, app_nil_r. split; [reflexivity|]. left.
+    destruct (Z.eqb_spec blen 0); [lia|]. destruct (Z.ltb_spec 0 blen); [reflexivity|lia]. }
+  induction fuel as [|fuel IH]; intros c cur blen acc Hcur Hblen Hfuel.
+  - assert (cur = send) by lia. subst cur. cbn [read_loop]. rewrite Z.ltb_irrefl. apply Hdone. assumption.
   - cbn [read_loop]. destruct (Z.ltb_spec cur send) as [Hlt|Hge].
     + rewrite position_ok by lia. rewrite eol_ok by lia. cbn [obind].
       pose proof (chunk_bounds (r_bases e) (r_bytes e) (r_len e) cur send HB HY ltac:(lia) Hlt ltac:(lia)) as HC.
@@ -92,47 +107,62 @@ Proof.
       pose proof (Z.div_mod cur (r_bases e) ltac:(lia)) as Ecur.
       pose proof (Z.mod_pos_bound cur (r_bases e) ltac:(lia)) as Mcur.
       pose proof (Z.div_pos cur (r_bases e) ltac:(lia) ltac:(lia)) as Pcur.
-      rewrite (Hread (cur / r_bases e) (cur mod r_bases e) k) by lia.
-      replace (cur / r_bases e * r_bases e + cur mod r_bases e) with cur by lia.
+      destruct (Hread (ch c) (cur / r_bases e) (cur mod r_bases e) k) as (err0 & Hrd & Herr0); try lia.
+      rewrite Hrd.
+      replace (cur / r_bases e * r_bases e + cur mod r_bases e) with cur in * by lia.
       rewrite zlen_slice by lia.
       replace (cur + k - cur) with k by lia.
-      change (NIL =? NIL) with true. cbn [negb orb].
-      destruct (Z.eqb_spec (blen - k) 0) as [Hz|Hnz].
-      * assert (k = blen) by lia.
-        rewrite (Z.min_l blen (send - cur)) by lia.
-        destruct (Z.ltb_spec (send - cur) blen); [lia|].
-        replace (cur + blen) with (cur + k) by lia. reflexivity.
-      * destruct (Z.eqb_spec k 0); [lia|].
-        assert (k = k') by lia.
-        rewrite IH by lia.
-        rewrite <- app_assoc. rewrite slice_app_mid by lia.
-        replace (cur + k + Z.min (blen - k) (send - (cur + k))) with (cur + Z.min blen (send - cur)) by lia.
-        replace (send - (cur + k) <? blen - k) with (send - cur <? blen); [reflexivity|].
-        destruct (Z.ltb_spec (send - cur) blen), (Z.ltb_spec (send - (cur + k)) (blen - k)); try reflexivity; lia.
-    + assert (cur = send) by lia. subst cur.
-      rewrite Z.sub_diag. rewrite Z.min_r by lia. rewrite Z.add_0_r, slice_nil_eq, app_nil_r.
-      destruct (Z.ltb_spec 0 blen); [reflexivity|lia].
+      destruct Herr0 as [->|(-> & Hch & Hlast)].
+      * change (NIL =? NIL) with true. cbn [negb orb].
+        destruct (Z.eqb_spec (blen - k) 0) as [Hz|Hnz].
+        -- assert (k = blen) by lia.
+           exists NIL, (S c). rewrite (Z.min_l blen (send - cur)) by lia.
+           replace (cur + blen) with (cur + k) by lia. split; [reflexivity|]. left.
+           destruct (Z.eqb_spec blen 0); [lia|]. destruct (Z.ltb_spec (send - cur) blen); [lia|reflexivity].
+        -- destruct (Z.eqb_spec k 0); [lia|].
+           assert (k = k') by lia.
+           destruct (IH (S c) (cur + k) (blen - k) (acc ++ slice seq cur (cur + k))) as (err & c' & HR & He); try lia.
+           exists err, c'. rewrite HR.
+           rewrite <- app_assoc. rewrite slice_app_mid by lia.
+           replace (cur + k + Z.min (blen - k) (send - (cur + k))) with (cur + Z.min blen (send - cur)) by lia.
+           split; [reflexivity|].
+           destruct He as [He|(He1 & He2 & He3 & He4)].
+           ++ left. rewrite He.
+              destruct (Z.eqb_spec (blen - k) 0); [lia|]. destruct (Z.eqb_spec blen 0); [lia|].
+              destruct (Z.ltb_spec (send - cur) blen), (Z.ltb_spec (send - (cur + k)) (blen - k)); try reflexivity; lia.
+           ++ right. repeat split; try lia; assumption.
+      * change (EOF =? NIL) with false. cbn [negb orb].
+        assert (send = cur + k) by lia.
+        exists EOF, (S c). rewrite (Z.min_r blen (send - cur)) by lia.
+        replace (cur + (send - cur)) with (cur + k) by lia. split; [reflexivity|].
+        destruct (Z.eq_dec k blen) as [Hkb|Hkb].
+        -- right. repeat split; try lia. exists c. assumption.
+        -- left. destruct (Z.eqb_spec blen 0); [lia|]. destruct (Z.ltb_spec (send - cur) blen); [reflexivity|lia].
+    + assert (cur = send) by lia. subst cur. apply Hdone. assumption.
 Qed.
 
 (** One Read call. *)
-Lemma seq_read_ok file e seq : layout file e seq ->
-  forall s send cur blen, 0 <= cur <= send -> send <= r_len e -> 0 <= blen ->
-  seq_read file (mkSeq e cur s send) blen =
-  (Ok (slice seq cur (cur + Z.min blen (send - cur)),
-       if blen =? 0 then NIL else if send - cur <? blen then EOF else NIL),
-   mkSeq e (cur + Z.min blen (send - cur)) s send).
+Lemma seq_read_ok file ch e seq : layout file e seq ->
+  forall s send c cur blen, 0 <= cur <= send -> send <= r_len e -> 0 <= blen ->
+  exists err c',
+  seq_read file ch c (mkSeq e cur s send) blen =
+  (Ok (slice seq cur (cur + Z.min blen (send - cur)), err),
+   mkSeq e (cur + Z.min blen (send - cur)) s send, c')
+  /\ err_ok ch blen (send - cur) err.
 Proof.
-  intros Hlay s send cur blen Hcur Hsend Hblen.
+  intros Hlay s send c cur blen Hcur Hsend Hblen.
   pose proof Hlay as (HL & HB & HY & _).
   unfold seq_read. cbn [q_rec q_cur q_start q_end].
   destruct (Z.eqb_spec blen 0) as [->|Hnz].
-  - rewrite Z.min_l by lia. rewrite Z.add_0_r, slice_nil_eq. reflexivity.
+  - exists NIL, c. rewrite Z.min_l by lia. rewrite Z.add_0_r, slice_nil_eq. split; [reflexivity|]. left. reflexivity.
   - destruct (Z.leb_spec send cur).
-    + assert (cur = send) by lia. subst cur. rewrite Z.sub_diag, Z.min_r by lia.
-      rewrite Z.add_0_r, slice_nil_eq. destruct (Z.ltb_spec 0 blen); [reflexivity|lia].
+    + assert (cur = send) by lia. subst cur. exists EOF, c. rewrite Z.sub_diag, Z.min_r by lia.
+      rewrite Z.add_0_r, slice_nil_eq. split; [reflexivity|]. left.
+      destruct (Z.eqb_spec blen 0); [lia|]. destruct (Z.ltb_spec 0 blen); [reflexivity|lia].
     + rewrite position_ok by lia.
-      rewrite (read_loop_ok file e seq Hlay send _ ltac:(lia) (position_ok e send HB ltac:(lia))) by lia.
-      reflexivity.
+      destruct (read_loop_ok file ch e seq Hlay send _ ltac:(lia) (position_ok e send HB ltac:(lia))
+                  (Z.to_nat (send - cur)) c cur blen []) as (err & c' & HR & He); try lia.
+      exists err, c'. rewrite HR. split; [reflexivity|assumption].
 Qed.
 
 (* ------------------------------------------------------------ scripts *)
@@ -154,21 +184,37 @@ Proof.
     replace (Z.to_nat (b - (a + (b - a)))) with 0%nat by lia. reflexivity.
 Qed.
 
-Lemma seq_script_ok file e seq : layout file e seq ->
+(** A whole script over a record with [layout]: its results satisfy the
+    io.Reader contract over the requested bases whatever the ReaderAt chooses,
+    and are exactly the ideal reader's when it never chooses io.EOF together
+    with the last bytes. *)
+Lemma seq_script_ok file ch e seq : layout file e seq ->
   forall s send, 0 <= s <= send -> send <= r_len e ->
-  forall sizes cur, s <= cur <= send ->
-  seq_script file (mkSeq e cur s send) sizes = ideal_script (slice seq s send) (slice seq cur send) sizes.
+  forall sizes c cur, s <= cur <= send ->
+  conforms (slice seq s send) (slice seq cur send) sizes (seq_script file ch c (mkSeq e cur s send) sizes) = true
+  /\ ((forall n, ch n = false) ->
+      seq_script file ch c (mkSeq e cur s send) sizes = ideal_script (slice seq s send) (slice seq cur send) sizes).
 Proof.
   intros Hlay s send Hs Hsend. pose proof Hlay as (HL & _).
-  induction sizes as [|k t IH]; intros cur Hcur; [reflexivity|].
-  cbn [seq_script ideal_script].
+  induction sizes as [|k t IH]; intros c cur Hcur; [split; reflexivity|].
+  cbn [seq_script ideal_script conforms].
   destruct (Z.ltb_spec k 0).
   - unfold seq_reset. cbn [q_rec q_start q_end]. apply IH. lia.
-  - rewrite (seq_read_ok file e seq Hlay) by lia.
+  - destruct (seq_read_ok file ch e seq Hlay s send c cur k) as (err & c' & HR & He); try lia.
+    rewrite HR.
+    destruct (IH c' (cur + Z.min k (send - cur)) ltac:(lia)) as [IHc IHe].
     destruct (Z.eqb_spec k 0) as [->|Hk].
-    + rewrite Z.min_l by lia. rewrite Z.add_0_r, slice_nil_eq. f_equal. apply IH. lia.
-    + rewrite firstn_slice by lia. rewrite skipn_slice by lia.
-      rewrite zlen_slice by lia. f_equal. apply IH. lia.
+    + rewrite Z.min_l in * by lia. rewrite Z.add_0_r in *. rewrite slice_nil_eq.
+      destruct He as [->|(_ & Hx & _)]; [|lia]. cbn [is_nil andb]. change (NIL =? NIL) with true.
+      split; [exact IHc|]. intros Hlazy. f_equal. apply IHe. assumption.
+    + rewrite firstn_slice by lia. rewrite skipn_slice by lia. rewrite zlen_slice by lia.
+      rewrite bytes_eqb_refl. cbn [andb]. split.
+      * rewrite IHc, andb_true_r.
+        destruct He as [->|(-> & _ & Hrem & _)].
+        -- destruct (Z.eqb_spec k 0); [lia|]. rewrite Z.eqb_refl. reflexivity.
+        -- rewrite Hrem. rewrite (Z.eqb_refl k). change (EOF =? EOF) with true. cbn [andb]. apply orb_true_r.
+      * intros Hlazy. destruct He as [->|(_ & _ & _ & n & Hn)]; [|rewrite Hlazy in Hn; discriminate].
+        destruct (Z.eqb_spec k 0); [lia|]. f_equal. apply IHe. assumption.
 Qed.
 
 (* ------------------------------------------- where the bases of a record are *)
@@ -215,9 +261,11 @@ Proof.
       destruct Hi as [[Hi Hjk]|[Hi Hjk]]; [left|right]; split; try assumption; simpl in Hi; lia.
 Qed.
 
-Lemma read_at_pre (pre B : list Z) (x k : Z) :
+Lemma read_at_pre (pre B : list Z) (ch : bool) (x k : Z) :
   0 <= x -> 1 <= k -> zlen (firstn (Z.to_nat k) (skipn (Z.to_nat x) B)) = k ->
-  read_at (pre ++ B) (zlen pre + x) k = (firstn (Z.to_nat k) (skipn (Z.to_nat x) B), NIL).
+  exists err,
+    read_at (pre ++ B) ch (zlen pre + x) k = (firstn (Z.to_nat k) (skipn (Z.to_nat x) B), err) /\
+    (err = NIL \/ err = EOF /\ ch = true /\ x + k = zlen B).
 Proof.
   intros Hx Hk Hlen. unfold read_at. pose proof (zlen_nonneg pre).
   destruct (Z.ltb_spec (zlen pre + x) 0); [lia|].
@@ -226,7 +274,10 @@ Proof.
   rewrite zlen_app'. destruct (Z.leb_spec (zlen pre + zlen B) (zlen pre + x)); [lia|].
   replace (Z.to_nat (zlen pre + x)) with (length pre + Z.to_nat x)%nat by (unfold zlen; lia).
   rewrite <- skipn_add. rewrite (skipn_app_exact pre) by reflexivity.
-  rewrite Hlen. rewrite Z.ltb_irrefl. reflexivity.
+  rewrite Hlen. rewrite Z.ltb_irrefl.
+  destruct (Z.eqb_spec (zlen pre + x + k) (zlen pre + zlen B)); destruct ch; cbn [andb];
+    eexists; (split; [reflexivity|]); try (left; reflexivity).
+  right. repeat split; try reflexivity. lia.
 Qed.
 
 Lemma full_widths w (full : list (list Z)) :
@@ -243,6 +294,13 @@ Proof.
   cbn [concat length]. rewrite zlen_app', IH, Hl. lia.
 Qed.
 
+Lemma zlen_concat_term w (full : list (list Z)) crlf : Forall (fun l => zlen l = w) full ->
+  zlen (concat (map (fun l => l ++ term crlf) full)) = Z.of_nat (length full) * (w + zlen (term crlf)).
+Proof.
+  induction 1 as [|l full Hl _ IH]; [reflexivity|].
+  cbn [map concat length]. rewrite !zlen_app', IH, Hl. lia.
+Qed.
+
 (** The entry of a well-formed record rendered at offset [zlen pre] addresses its bases. *)
 Lemma layout_rec nl r pre post : wf_rec nl r = true -> is_empty r = false ->
   layout (pre ++ render_rec nl r ++ post) (entry nl (zlen pre) r) (bases r).
@@ -255,7 +313,7 @@ Proof.
   unfold layout, entry. rewrite He. cbn [r_len r_start r_bases r_bytes]. unfold tlen.
   split; [reflexivity|]. split; [lia|]. split.
   { destruct (s_full r); [destruct nl|]; lia. }
-  intros i j k Hi Hj Hk Hjk Hend.
+  intros ch i j k Hi Hj Hk Hjk Hend.
   rewrite zlen_concat_bases, Hcf in Hend.
   unfold render_rec. rewrite He. unfold render_body. fold sp.
   rewrite <- !app_assoc. rewrite (app_assoc pre (render_header r)).
@@ -276,12 +334,26 @@ Proof.
   assert (Hslice : firstn (Z.to_nat k) (skipn (Z.to_nat (i * width r + j)) (concat (s_full r) ++ s_last r))
                    = slice (bases r) (i * width r + j) (i * width r + j + k)).
   { unfold slice, bases. f_equal. lia. }
-  rewrite read_at_pre.
-  - rewrite Hoff, Z2Nat.id by lia. rewrite Hbody, Hslice. reflexivity.
+  destruct (read_at_pre (pre ++ render_header r)
+              (concat (map (fun l => l ++ term (s_crlf r)) (s_full r)) ++ s_last r ++ tail) ch (i * bytes_ + j) k)
+    as (err & Hrd & Herr).
   - nia.
   - assumption.
   - rewrite Hoff, Z2Nat.id by lia. rewrite Hbody, Hslice. rewrite zlen_slice; [lia|nia|].
     rewrite zlen_concat_bases, Hcf. lia.
+  - exists err. split.
+    + rewrite Hrd. rewrite Hoff, Z2Nat.id by lia. rewrite Hbody, Hslice. reflexivity.
+    + destruct Herr as [->|(-> & Hch & Hendf)]; [left; reflexivity|right].
+      repeat split; try assumption.
+      (* the chunk ends at the end of the file: it ends at the last base *)
+      rewrite zlen_concat_bases, Hcf.
+      rewrite !zlen_app' in Hendf.
+      rewrite (zlen_concat_term (width r) (s_full r) (s_crlf r) Hw) in Hendf.
+      pose proof (zlen_nonneg tail) as Htail0.
+      rewrite Hoff, Z2Nat.id in Hendf by lia.
+      destruct Hline as [[Hlt Hjk']|[Heq Hjk']].
+      * exfalso. assert (i + 1 <= Z.of_nat (length (s_full r))) by lia. nia.
+      * assert (i = Z.of_nat (length (s_full r))) by lia. subst i. lia.
 Qed.
 
 (* ------------------------------------------------- a record inside a file *)
@@ -373,9 +445,9 @@ Proof.
 Qed.
 
 (** Seq.Read on a record of length zero (whatever its layout fields) is the
-    ideal reader over the empty string: never a division by zero. *)
-Lemma read_zero_length file e sizes : r_len e = 0 ->
-  seq_script file (mkSeq e 0 0 0) sizes = ideal_script [] [] sizes.
+    ideal reader over the empty string: never a division by zero, no ReadAt. *)
+Lemma read_zero_length file ch c e sizes : r_len e = 0 ->
+  seq_script file ch c (mkSeq e 0 0 0) sizes = ideal_script [] [] sizes.
 Proof.
   intros _. induction sizes as [|k t IH]; [reflexivity|].
   cbn [seq_script ideal_script]. destruct (Z.ltb_spec k 0).
@@ -387,12 +459,30 @@ Proof.
       destruct (Z.to_nat k); cbn [firstn skipn]; f_equal; exact IH.
 Qed.
 
-Theorem read_range_gen f rs1 r rs2 s e sizes :
+(** The ideal reader satisfies the contract. *)
+Lemma ideal_conforms data : forall sizes rest, conforms data rest sizes (ideal_script data rest sizes) = true.
+Proof.
+  induction sizes as [|k t IH]; intros rest; [reflexivity|].
+  cbn [conforms ideal_script]. destruct (k <? 0); [apply IH|].
+  destruct (k =? 0) eqn:Ek.
+  - cbn [is_nil andb]. change (NIL =? NIL) with true. apply IH.
+  - rewrite bytes_eqb_refl, Z.eqb_refl, IH. reflexivity.
+Qed.
+
+(** Every record of a well-formed file, every range and every script, over
+    EVERY ReaderAt that keeps the io.ReaderAt contract ([ch]: its choice, call
+    by call, between nil and io.EOF when the bytes asked for end at the end of
+    the file): SeqRange succeeds, the results satisfy the io.Reader contract
+    over bases s..e, and they are exactly the ideal reader's when the ReaderAt
+    never reports io.EOF together with the last bytes. *)
+Theorem read_range_gen f rs1 r rs2 s e sizes ch c :
   wf f = true -> lines_fit (render f) = true ->
   f_recs f = rs1 ++ r :: rs2 -> 0 <= s <= e -> e <= zlen (bases r) ->
   exists idx q,
     newindex (render f) = Ok idx /\ file_seqrange idx (s_name r) s e = Ok q /\
-    seq_script (render f) q sizes = ideal_script (slice (bases r) s e) (slice (bases r) s e) sizes.
+    conforms (slice (bases r) s e) (slice (bases r) s e) sizes (seq_script (render f) ch c q sizes) = true /\
+    ((forall n, ch n = false) ->
+     seq_script (render f) ch c q sizes = ideal_script (slice (bases r) s e) (slice (bases r) s e) sizes).
 Proof.
   intros Hwf Hfit Hsplit Hse He.
   destruct (record_layout f rs1 r rs2 Hwf Hsplit) as [Hlook Hlay]. cbv zeta in *.
@@ -405,15 +495,18 @@ Proof.
   - destruct (is_empty r) eqn:Hemp.
     + rewrite (empty_bases r Hemp) in *. rewrite zlen_nil in He.
       assert (s = 0) by lia. assert (e = 0) by lia. subst s e.
-      rewrite slice_nil_eq. apply read_zero_length. subst en. rewrite entry_len, (empty_bases r Hemp). reflexivity.
-    + apply (seq_script_ok _ _ _ (Hlay eq_refl)); subst en; rewrite ?entry_len; lia.
+      rewrite slice_nil_eq.
+      rewrite read_zero_length by (subst en; rewrite entry_len, (empty_bases r Hemp); reflexivity).
+      split; [apply ideal_conforms|reflexivity].
+    + apply (seq_script_ok _ ch _ _ (Hlay eq_refl)); subst en; rewrite ?entry_len; lia.
 Qed.
 
-Theorem read_whole_gen f rs1 r rs2 sizes :
+Theorem read_whole_gen f rs1 r rs2 sizes ch c :
   wf f = true -> lines_fit (render f) = true -> f_recs f = rs1 ++ r :: rs2 ->
   exists idx q,
     newindex (render f) = Ok idx /\ file_seq idx (s_name r) = Ok q /\
-    seq_script (render f) q sizes = ideal_script (bases r) (bases r) sizes.
+    conforms (bases r) (bases r) sizes (seq_script (render f) ch c q sizes) = true /\
+    ((forall n, ch n = false) -> seq_script (render f) ch c q sizes = ideal_script (bases r) (bases r) sizes).
 Proof.
   intros Hwf Hfit Hsplit.
   destruct (record_layout f rs1 r rs2 Hwf Hsplit) as [Hlook Hlay]. cbv zeta in *.
@@ -422,42 +515,54 @@ Proof.
   - unfold file_seq. rewrite Hlook. reflexivity.
   - destruct (is_empty r) eqn:Hemp.
     + assert (Hlen : r_len en = 0) by (subst en; rewrite entry_len, (empty_bases r Hemp); reflexivity).
-      rewrite Hlen, (empty_bases r Hemp). apply read_zero_length. assumption.
+      rewrite Hlen, (empty_bases r Hemp). rewrite read_zero_length by assumption.
+      split; [apply ideal_conforms|reflexivity].
     + pose proof (zlen_nonneg (bases r)).
-      rewrite (seq_script_ok _ _ _ (Hlay eq_refl)) by (subst en; rewrite ?entry_len; lia).
-      subst en. rewrite entry_len, slice_full. reflexivity.
+      destruct (seq_script_ok _ ch _ _ (Hlay eq_refl) 0 (r_len en) ltac:(subst en; rewrite ?entry_len; lia) ltac:(lia) sizes c 0
+                  ltac:(subst en; rewrite ?entry_len; lia)) as [Hc Hx].
+      subst en. rewrite entry_len, slice_full in *. split; assumption.
 Qed.
 
-(** Reading an ideal stream to the end with positive buffer sizes delivers
-    exactly its bytes and then io.EOF. *)
-Lemma ideal_drain data : forall sizes rest,
+(** Reading a stream that satisfies the contract to its end with positive
+    buffer sizes delivers exactly its bytes and then io.EOF. *)
+Lemma conforms_drain data : forall sizes rest rs,
+  conforms data rest sizes rs = true ->
   Forall (fun k => 1 <= k) sizes -> zlen rest < fold_right Z.add 0 sizes ->
-  drain (ideal_script data rest sizes) = Some rest.
+  drain rs = Some rest.
 Proof.
-  induction sizes as [|k t IH]; intros rest Hpos Hsum.
+  induction sizes as [|k t IH]; intros rest rs Hc Hpos Hsum.
   - cbn in Hsum. pose proof (zlen_nonneg rest). lia.
   - inversion Hpos as [|? ? Hk Ht]; subst. cbn [fold_right] in Hsum.
-    cbn [ideal_script]. destruct (Z.ltb_spec k 0); [lia|]. destruct (Z.eqb_spec k 0); [lia|].
-    cbn [drain]. destruct (Z.ltb_spec (zlen rest) k).
-    + change (EOF =? EOF) with true. cbv iota. f_equal. apply firstn_all2. unfold zlen in *. lia.
-    + change (NIL =? EOF) with false. cbv iota. rewrite IH.
-      * rewrite firstn_skipn. reflexivity.
-      * assumption.
-      * unfold zlen in *. rewrite skipn_length. lia.
+    cbn [conforms] in Hc. destruct (Z.ltb_spec k 0); [lia|].
+    destruct rs as [|[[d e']| | |] rs']; try discriminate.
+    destruct (Z.eqb_spec k 0); [lia|].
+    apply andb_true_iff in Hc as [Hc Hrest]. apply andb_true_iff in Hc as [Hd Herr].
+    apply bytes_eqb_eq in Hd. subst d. cbn [drain].
+    assert (Hall : zlen rest <= k -> firstn (Z.to_nat k) rest = rest).
+    { intros Hle. apply firstn_all2. unfold zlen in *. lia. }
+    apply orb_true_iff in Herr as [Herr|Herr].
+    + apply Z.eqb_eq in Herr. subst e'. destruct (Z.ltb_spec (zlen rest) k).
+      * change (EOF =? EOF) with true. cbv iota. f_equal. apply Hall. lia.
+      * change (NIL =? EOF) with false. cbv iota.
+        rewrite (IH (skipn (Z.to_nat k) rest) rs' Hrest Ht).
+        -- rewrite firstn_skipn. reflexivity.
+        -- unfold zlen in *. rewrite skipn_length. lia.
+    + apply andb_true_iff in Herr as [He1 He2]. apply Z.eqb_eq in He1, He2. subst e'.
+      change (EOF =? EOF) with true. cbv iota. f_equal. apply Hall. lia.
 Qed.
 
-Theorem read_to_eof f rs1 r rs2 s e sizes :
+Theorem read_to_eof f rs1 r rs2 s e sizes ch c :
   wf f = true -> lines_fit (render f) = true ->
   f_recs f = rs1 ++ r :: rs2 -> 0 <= s <= e -> e <= zlen (bases r) ->
   Forall (fun k => 1 <= k) sizes -> e - s < fold_right Z.add 0 sizes ->
   exists idx q,
     newindex (render f) = Ok idx /\ file_seqrange idx (s_name r) s e = Ok q /\
-    drain (seq_script (render f) q sizes) = Some (slice (bases r) s e).
+    drain (seq_script (render f) ch c q sizes) = Some (slice (bases r) s e).
 Proof.
   intros Hwf Hfit Hsplit Hse He Hpos Hsum.
-  destruct (read_range_gen f rs1 r rs2 s e sizes Hwf Hfit Hsplit Hse He) as (idx & q & H1 & H2 & H3).
+  destruct (read_range_gen f rs1 r rs2 s e sizes ch c Hwf Hfit Hsplit Hse He) as (idx & q & H1 & H2 & H3 & _).
   exists idx, q. split; [assumption|]. split; [assumption|].
-  rewrite H3. apply ideal_drain; [assumption|]. rewrite zlen_slice by lia. assumption.
+  eapply conforms_drain; [exact H3|assumption|]. rewrite zlen_slice by lia. assumption.
 Qed.
 
 (** Regression witness: without advancing the offset over blank lines the
